@@ -37,7 +37,14 @@ def run(ctx):
     nb = nexts[0]
     where = (nb["span"]["file"], nb["span"]["line"], nb["def"])
     try:
-        fi_in = field_index(F, T, "input")
+        try:
+            fi_in = [field_index(F, T, "input")]
+        except AnchorMissing:
+            # renamed: any of the parser's slice fields may be the remaining input (progress = one of them shrinks)
+            fi_in = [i for i, fl in enumerate(F.adts[T]["variants"][0]["fields"]) if fl["ty"].get("k") == "ref"
+                     and (fl["ty"].get("to") or {}).get("k") == "slice"]
+            if not fi_in:
+                raise
         cases = A.method_cases(T, nb)
     except (AnchorMissing, Unsupported) as e:
         ctx.violation("ANCHOR-MISSING", "Parser", where, str(e))
@@ -50,9 +57,13 @@ def run(ctx):
             obj1 = s2.mem[c["root"]]
             if cls == "Ok":
                 ctx.count("R-C13-PROGRESS")
-                n0 = c["obj0"].elems[fi_in].n
-                n1 = obj1.elems[fi_in].n
-                ok = s2.prove_ge0(n0 - n1 - 1)
+                ok = False
+                for fi_ in fi_in:
+                    n0 = c["obj0"].elems[fi_].n
+                    n1 = obj1.elems[fi_].n
+                    if s2.prove_ge0(n0 - n1 - 1):
+                        ok = True
+                        break
                 ctx.oblig(ok)
                 if not ok:
                     ctx.violation("R-C13-PROGRESS", "partition=%s" % (c["key"],), where,
